@@ -58,7 +58,14 @@ TraceBegin  == /\ IsEvent("begin")  /\ BeginCore(ScenOf(Ev)) /\ h' = <<>>
                /\ ps' = IF phase = "returned" THEN scen ELSE NoScen
 TraceStart  == /\ IsEvent("start")  /\ StartCore(Ev.r)
                /\ h' = Append(h, [ev |-> "start", r |-> Ev.r, out |-> ""]) /\ UNCHANGED <<ph, ps>>
-TraceEnd    == /\ IsEvent("end")    /\ EndCore(Ev.r, Ev.out, Ev.val, Ev.st)
+\* the driver's script for this execution of the rule ("want": what the rule text and the data make it do) against
+\* what the rule did: a rule scripted to return reaches its return statement, a rule scripted to fail fails
+WantOK(e) == CASE e.want = "ret"    -> e.out = "ret" /\ e.val # "nil"
+               [] e.want = "retnil" -> e.out = "ret" /\ e.val = "nil"
+               [] e.want \in {"fail", "failret", "topfail", "fault"} -> e.out = "fail"
+               [] e.want \in {"ok", ""} -> e.out \in {"ok", "ret"}
+               [] OTHER -> TRUE
+TraceEnd    == /\ IsEvent("end")    /\ EndCore(Ev.r, Ev.out, Ev.val, Ev.st) /\ WantOK(Ev)
                /\ h' = Append(h, [ev |-> "end", r |-> Ev.r, out |-> Ev.out]) /\ UNCHANGED <<ph, ps>>
 TraceReturn == /\ IsEvent("return") /\ ~Ev.panic /\ ReturnCore(Ev.err, IF CheckKeys THEN KeysOf(Ev) ELSE result)
                /\ TwinOK(Ev.twin) /\ UNCHANGED <<h, ph, ps>>
